@@ -422,7 +422,7 @@ pub fn run(tier: &str, seed: u64) -> i32 {
         body_forms: if thorough {
             ALL_BODY_FORMS.to_vec()
         } else {
-            vec![BodyForm::Named]
+            vec![BodyForm::Named, BodyForm::Unnamed]
         },
         param_forms: if thorough {
             ALL_PARAM_FORMS.to_vec()
@@ -438,6 +438,11 @@ pub fn run(tier: &str, seed: u64) -> i32 {
     let (all, _, _) = enumerate(&d, if thorough { 3 } else { 2 }, 3_000_000);
     for (_, s) in &all {
         if !wf5_ok(s) {
+            continue;
+        }
+        // quick tier: the tuple-struct form only with at most one field (the single-field tuple struct is what the
+        // CompactAs rule and the marker placement treat specially)
+        if !thorough && s.form == BodyForm::Unnamed && s.fields.len() > 1 {
             continue;
         }
         let prog = s.program();
